@@ -98,6 +98,16 @@ def check_crystal(part, row, ops, cell, sites_int, D, case, slab_bounds=None, st
                 if not np.array_equal(np.asarray(first[k]), v):
                     part.fail("export-mutates:%s" % k, "exporting the crystal to POSCAR / CIF / .res changed the %r array of the unit-cell atoms handed out before (%s)" % (k, sk), case)
                     break
+        if case.get("variant") == "after-refused-calls":
+            # the first requests this object ever sees are ones the API refuses (a tolerance that is not a number, a slab with malformed
+            # bounds, an unknown setting name): each raises, and the expansion asked for afterwards is the one a fresh object gives
+            for refused in (lambda: c.unit_cell_atoms(tolerance=None), lambda: c.slab(bounds=((0, 0), (1, 1))), lambda: c.choose_trigonal_lattice("r"),
+                            lambda: c.atoms_in_radius("far"), lambda: c.unit_cell_atoms(tolerance="x")):
+                try:
+                    refused()
+                    part.count("refused_call_answered")
+                except Exception:
+                    pass
         uc = c.unit_cell_atoms()
     except Exception as e:
         part.fail("raise:%s" % sk, "unit_cell_atoms raised %r for %s" % (e, sk), case)
@@ -285,6 +295,9 @@ def plan_for_setting(row, tier, seed):
                   "variant": "int-array", "container": "int"})
     cases.append({"number": number, "choice": choice, "D": N, "sites": reps0[:7], "cell": cells[0], "slab": None, "z0": 11, "variant": "list", "container": "list"})
     cases.append({"number": number, "choice": choice, "D": N, "sites": reps0[:7], "cell": cells[0], "slab": None, "z0": 5, "variant": "after-exports"})
+    special0 = [o[0] for o in orbs if len(o) < len(ops)][:20]                    # special positions first: that is where merging happens
+    special0 += [p for p in reps0[:12] if p not in special0][:7]
+    cases.append({"number": number, "choice": choice, "D": N, "sites": special0, "cell": cells[0], "slab": SLABS[0], "z0": 7, "variant": "after-refused-calls"})
     # the same cell given by lattice VECTORS in another Cartesian frame (what the POSCAR / .gen readers produce): the fractional
     # side is unchanged, Cartesian coordinates must follow the given vectors
     for fi, frame in enumerate(("rotated", "permuted", "mirrored")):
